@@ -1,13 +1,13 @@
 import Qryn.Base.Bytes
 import Qryn.Gen.Thresholds
 /-! Model of the log/metric request builder of the writer: `parserDoer.onEntries`, `timeSeriesAndSamples`
-    (`reset`/`flush`), `fastFillArray`, `fpsCache`/`maybeAddFp`, `sanitizeLabels`
+    (`reset`/`flush`), `fastFillArray`, `maybeAddFp`, `sanitizeLabels`, `validUTF8Labels`
     (writer/utils/unmarshal/builder.go, shared.go, unmarshal.go). Core-only.
 
     * strings are byte strings; float64 values are carried as their IEEE-754 bit pattern (`UInt64`): the builder
       never computes with them;
     * the series fingerprint (`fingerprintLabels`, property C04) and the byte length of the label document
-      (`encodeLabels`, built with `strconv.Quote`) are ABSTRACT functions of the label list (`Env.fp`, `Env.encLen`);
+      (`encodeLabels`, a JSON object written with jx) are ABSTRACT functions of the label list (`Env.fp`, `Env.encLen`);
     * the flush test (an arbitrary predicate on the byte count; today `> 1 MiB`) and the per-row size constants
       are PARAMETERS (`Env`); `Gen.Thresholds` carries what the source has today;
     * `onEntries` receives parallel arrays exactly like the Go callback and appends column by column, so a
@@ -28,31 +28,31 @@ def isAlnum (c : UInt8) : Bool := isAlpha c || (48 ≤ c && c ≤ 57)
 
 def isCont (b : UInt8) : Bool := 0x80 ≤ b && b ≤ 0xBF
 
+/-- what the first byte of an encoding announces (Go's `first` table and `acceptRanges`): a byte that stands alone
+    (ASCII, or not a valid lead byte), or a lead byte of a 2-, 3- or 4-byte encoding with the range its second byte must lie in -/
+inductive Lead
+  | single
+  | two
+  | three (lo hi : UInt8)
+  | four (lo hi : UInt8)
+
+def lead (b0 : UInt8) : Lead :=
+  if b0 < 0xC2 then .single
+  else if b0 < 0xE0 then .two
+  else if b0 < 0xF0 then .three (if b0 = 0xE0 then 0xA0 else 0x80) (if b0 = 0xED then 0x9F else 0xBF)
+  else if b0 < 0xF5 then .four (if b0 = 0xF0 then 0x90 else 0x80) (if b0 = 0xF4 then 0x8F else 0xBF)
+  else .single
+
 /-- width of the rune Go's `utf8.DecodeRune` reads at the head of a non-empty string (an invalid or truncated
-    encoding is one `RuneError` of width 1); the regexp engine walks the string with it. -/
+    encoding is one `RuneError` of width 1); the regexp engine and `strings.ToValidUTF8` walk the string with it. -/
 def runeLen : Bytes → Nat
   | [] => 0
   | b0 :: rest =>
-    if b0 < 0xC2 then 1
-    else if b0 < 0xE0 then
-      match rest with
-      | b1 :: _ => if isCont b1 then 2 else 1
-      | _ => 1
-    else if b0 < 0xF0 then
-      match rest with
-      | b1 :: b2 :: _ =>
-        let lo : UInt8 := if b0 = 0xE0 then 0xA0 else 0x80
-        let hi : UInt8 := if b0 = 0xED then 0x9F else 0xBF
-        if lo ≤ b1 && b1 ≤ hi && isCont b2 then 3 else 1
-      | _ => 1
-    else if b0 < 0xF5 then
-      match rest with
-      | b1 :: b2 :: b3 :: _ =>
-        let lo : UInt8 := if b0 = 0xF0 then 0x90 else 0x80
-        let hi : UInt8 := if b0 = 0xF4 then 0x8F else 0xBF
-        if lo ≤ b1 && b1 ≤ hi && isCont b2 && isCont b3 then 4 else 1
-      | _ => 1
-    else 1
+    match lead b0, rest with
+    | .two, b1 :: _ => if isCont b1 then 2 else 1
+    | .three lo hi, b1 :: b2 :: _ => if lo ≤ b1 && b1 ≤ hi && isCont b2 then 3 else 1
+    | .four lo hi, b1 :: b2 :: b3 :: _ => if lo ≤ b1 && b1 ≤ hi && isCont b2 && isCont b3 then 4 else 1
+    | _, _ => 1
 
 /-- `ReplaceAllString(s, "_")` for a regexp that matches exactly the single runes rejected by `ok`
     (`first` = at offset 0): every rejected rune, whatever its width, becomes one `_`. -/
@@ -74,6 +74,37 @@ def truncValue (v : Bytes) : Bytes :=
   if v.length > Gen.labelValueMax then v.take Gen.labelValueCut ++ Gen.labelValueSuffix else v
 
 def sanitizeLabels (ls : Labels) : Labels := ls.map (fun l => (sanitizeName l.1, truncValue l.2))
+
+/-! ### `validUTF8Labels` (`strings.ToValidUTF8(s, "\uFFFD")`) -/
+
+def replacementChar : Bytes := [0xEF, 0xBF, 0xBD]   -- U+FFFD
+
+/-- the loop of `strings.ToValidUTF8`: `skip` = bytes of the current well-formed multi-byte rune still to copy,
+    `inv` = the previous byte belonged to an invalid sequence (a RUN of invalid bytes yields one replacement) -/
+def toValidGo : Nat → Bool → Bytes → Bytes
+  | _, _, [] => []
+  | skip + 1, _, b :: rest => b :: toValidGo skip false rest
+  | 0, inv, b :: rest =>
+    if b < 0x80 then b :: toValidGo 0 false rest
+    else if runeLen (b :: rest) = 1 then (if inv then [] else replacementChar) ++ toValidGo 0 true rest
+    else b :: toValidGo (runeLen (b :: rest) - 1) false rest
+
+def toValidUTF8 (s : Bytes) : Bytes := toValidGo 0 false s
+
+/-- `utf8.ValidString` as the same walk -/
+def validGo : Nat → Bytes → Bool
+  | _, [] => true
+  | skip + 1, _ :: rest => validGo skip rest
+  | 0, b :: rest =>
+    if b < 0x80 then validGo 0 rest
+    else if runeLen (b :: rest) = 1 then false
+    else validGo (runeLen (b :: rest) - 1) rest
+
+def validUTF8 (s : Bytes) : Bool := validGo 0 s
+
+/-- `validUTF8Labels`: a label with an invalid name or value gets both replaced by their valid forms
+    (`toValidUTF8` is the identity on valid strings — `Proofs/Utf8.lean` — so mapping both always is the same) -/
+def validLabels (ls : Labels) : Labels := ls.map (fun l => (toValidUTF8 l.1, toValidUTF8 l.2))
 
 /-! ### `__ttl_days__` -/
 
@@ -104,6 +135,11 @@ def effective (ctxTtl : Nat) (labels : Labels) : Labels × Nat :=
   if ctxTtl ≠ 0 then (labels, ctxTtl)
   else (labels.filter (fun l => l.1 ≠ ttlLabel),
         labels.foldl (fun t l => if l.1 = ttlLabel then (match parseI16 l.2 with | some v => toU16 v | none => t) else t) 0)
+
+/-- the label list `onEntries` fingerprints and documents: TTL preamble, then `validUTF8Labels` -/
+def identOf (ctxTtl : Nat) (labels : Labels) : Labels := validLabels (effective ctxTtl labels).1
+
+def ttlOf (ctxTtl : Nat) (labels : Labels) : Nat := (effective ctxTtl labels).2
 
 /-! ### requests -/
 
@@ -180,17 +216,18 @@ def Call.ofEntries (labels : Labels) (es : List Entry) : Call :=
 
 structure Env where
   fp : Labels → UInt64          -- fingerprintLabels (C04)
-  encLen : Labels → Nat         -- len(encodeLabels(labels))
+  encLen : Labels → Nat         -- len(encodeLabels(labels)) (the jx-encoded JSON object)
   flush : Nat → Bool            -- the test on spl.Size + ts.Size that emits the open requests (today: > 1 MiB)
   rowBytes : Nat                -- 26
   seriesBytes : Nat             -- 14
   ctxTtl : Nat                  -- TTL_DAYS of the request context (0 = none)
 
-/-- builder state: the open requests and the (day, fingerprint) cache -/
+/-- builder state: the open requests and the (day, fingerprint, type) keys this request has emitted a series
+    row for (`seenFpKeys`; the shared cache is only set by the caller once a row is stored) -/
 structure St where
   spl : Samples := {}
   ts : Series := {}
-  cache : List (Int × UInt64) := []
+  cache : List (Int × UInt64 × Nat) := []
 
 /-- `fastFillArray(n, v)` (after the fix: n = 0 gives the empty slice) -/
 def fastFill {α} (n : Nat) (v : α) : List α := List.replicate n v
@@ -198,17 +235,18 @@ def fastFill {α} (n : Nat) (v : α) : List α := List.replicate n v
 /-- `time.Unix(tsns/1000000000, 0).Truncate(24h).Unix()`: Go's `/` truncates towards zero, `Truncate` rounds down -/
 def dayOf (tsns : Int) : Int := (Int.tdiv tsns 1000000000) / 86400 * 86400
 
-/-- one iteration of `for d := range dates` -/
-def seriesStep (env : Env) (labels : Labels) (fp : UInt64) (ttl : Nat) (tps : List Nat)
-    (acc : Series × List (Int × UInt64)) (d : Int) : Series × List (Int × UInt64) :=
-  if acc.2.contains (d, fp) then acc
-  else (⟨acc.1.rows ++ tps.map (fun t => ⟨d, fp, labels, t, ttl⟩),
-         acc.1.size + tps.length * (env.seriesBytes + env.encLen labels)⟩, (d, fp) :: acc.2)
+/-- one iteration of `for d := range dates { for t := range tps {…} }`: `maybeAddFp(d, fp, t)` -/
+def seriesStep (env : Env) (labels : Labels) (fp : UInt64) (ttl : Nat)
+    (acc : Series × List (Int × UInt64 × Nat)) (dt : Int × Nat) : Series × List (Int × UInt64 × Nat) :=
+  if acc.2.contains (dt.1, fp, dt.2) then acc
+  else (⟨acc.1.rows ++ [⟨dt.1, fp, labels, dt.2, ttl⟩], acc.1.size + (env.seriesBytes + env.encLen labels)⟩,
+        (dt.1, fp, dt.2) :: acc.2)
 
 /-- `onEntries` for arguments on which it does not fault. `dates` is a Go map: its iteration order is not
     specified; the model takes first-occurrence order (the harness compares series rows as a set per chunk). -/
 def onEntriesPure (env : Env) (st : St) (c : Call) : St × List Chunk :=
-  let (labels, ttl) := effective env.ctxTtl c.labels
+  let labels := identOf env.ctxTtl c.labels
+  let ttl := ttlOf env.ctxTtl c.labels
   let fp := env.fp labels
   let n := c.ts.length
   let spl : Samples :=
@@ -217,7 +255,7 @@ def onEntriesPure (env : Env) (st : St) (c : Call) : St × List Chunk :=
       size := st.spl.size + ((c.msg.take n).map (fun m => m.length + env.rowBytes)).sum }
   let tps := [0, 1, 2].filter (fun t => c.tp.contains t)
   let dates := (c.ts.map dayOf).eraseDups
-  let (ts, cache) := dates.foldl (seriesStep env labels fp ttl tps) (st.ts, st.cache)
+  let (ts, cache) := (dates.flatMap (fun d => tps.map (fun t => (d, t)))).foldl (seriesStep env labels fp ttl) (st.ts, st.cache)
   if env.flush (spl.size + ts.size) then
     ({ spl := {}, ts := {}, cache := cache }, [⟨spl, ts⟩])
   else ({ spl := spl, ts := ts, cache := cache }, [])
@@ -250,7 +288,7 @@ def parse (env : Env) (calls : List Call) : Except Fault (List Chunk) :=
 def rowOf (fp : UInt64) (ttl : Nat) (e : Entry) : Row := ⟨fp, e.ts, e.line, e.val, e.tp, ttl⟩
 
 def streamRows (env : Env) (labels : Labels) (es : List Entry) : List Row :=
-  es.map (rowOf (env.fp (effective env.ctxTtl labels).1) (effective env.ctxTtl labels).2)
+  es.map (rowOf (env.fp (identOf env.ctxTtl labels)) (ttlOf env.ctxTtl labels))
 
 /-- the environment with today's constants of the source -/
 def Env.ofGen (fp : Labels → UInt64) (encLen : Labels → Nat) (ctxTtl : Nat) : Env :=
